@@ -588,6 +588,20 @@ class ServerFacts:
             return [e.value for e in d.elts]
         return None
 
+    def permission_lookup_on_virtual_path(self):
+        """True only when the wrapper of `PathPermissions.__call__` takes the virtual path from `get_paths` - the same
+        call every handler makes for the location it acts on - and looks the permission up for exactly that value"""
+        cls = next((n for n in self.tree.body if isinstance(n, ast.ClassDef) and n.name == "PathPermissions"), None)
+        call = next((n for n in (cls.body if cls else []) if isinstance(n, ast.FunctionDef) and n.name == "__call__"), None)
+        wrapper = next((n for n in (call.body if call else []) if isinstance(n, ast.AsyncFunctionDef)), None)
+        if wrapper is None or len(wrapper.body) < 2:
+            return False
+        t0, t1 = ast.unparse(wrapper.body[0]), ast.unparse(wrapper.body[1])
+        if t0 != "real_path, virtual_path = cls.get_paths(connection, rest)" or t1 != "current_permission = await connection.user.get_permissions(virtual_path)":
+            return False
+        # nothing re-binds virtual_path or rest before the lookup, and no other lookup is made
+        return sum("get_permissions" in ast.unparse(n) for n in wrapper.body) == 1
+
     def parse_command_shape(self):
         """True only for: `s = line.decode(encoding=self.encoding).rstrip()` (no argument: all white space),
         `cmd, _, rest = s.partition(' ')`, `return (cmd.lower(), rest)` - what `Model.Session.parseCommand` says"""
@@ -784,6 +798,8 @@ def gen_server():
     lines.append("def passiveStartLocked : Bool := %s" % ("true" if F.passive_start_locked() else "false"))
     lines.append("/-- `dispatcher` starts with `if not self.server.is_serving(): writer.close(); return` -/")
     lines.append("def dispatcherRefusesWhenNotServing : Bool := %s" % ("true" if F.dispatcher_refuses_when_not_serving() else "false"))
+    lines.append("/-- `PathPermissions` looks the permission up for the virtual path `get_paths(connection, rest)` returns -/")
+    lines.append("def permissionLookupOnVirtualPath : Bool := %s" % ("true" if F.permission_lookup_on_virtual_path() else "false"))
     lines.append("/-- `parse_command` is decode, `rstrip()` without argument, `partition(' ')`, `lower()` of the first word -/")
     lines.append("def parseCommandRstripPartitionLower : Bool := %s" % ("true" if F.parse_command_shape() else "false"))
     lines.append("/-- the dispatcher starts the handler of a command only when the handler of the previous one has returned -/")
